@@ -294,7 +294,7 @@ def gen_c18w(tier: str, rng: random.Random) -> Iterator[Dict[str, Any]]:
     layouts = ["one-connection", "round-robin-2", "round-robin-3", "connection-per-request"]
     for mr in (0, 1, 2, 5):
         for jit in (0, 2):
-            seeds = [0] if jit == 0 else (list(range(8)) if thorough else [0, 1, 2, 3])
+            seeds = [0] if jit == 0 else (list(range(16)) if thorough else list(range(8)))
             for seed in seeds:
                 for layout in layouts:
                     total = mr + jit + 3
@@ -347,7 +347,8 @@ def gen_c18w(tier: str, rng: random.Random) -> Iterator[Dict[str, Any]]:
 GENERATORS = {"C14": gen_c14, "C15": gen_c15, "C18W": gen_c18w}
 
 
-def run_check(prop: str, tier: str = "quick", seed: int = 0, workers: Tuple[str, ...] = ("asyncio", "trio")) -> Dict[str, Any]:
+def run_check(prop: str, tier: str = "quick", seed: int = 0, workers: Tuple[str, ...] = ("asyncio", "trio"),
+              procs: int = 0, repeat: bool = True) -> Dict[str, Any]:
     """generation + execution on both workers + TLC validation; returns a summary with the
     distinct (clause, ctx) signatures, one sample script (family) per signature and worker."""
     import time
@@ -359,7 +360,11 @@ def run_check(prop: str, tier: str = "quick", seed: int = 0, workers: Tuple[str,
     scripts = list(GENERATORS[prop](tier, rng))
     jobs = [(sc, w) for sc in scripts for w in workers]
     t1 = time.time()
-    traces = worker_env.run_many(jobs, seed=seed)
+    traces = worker_env.run_many(jobs, seed=seed, procs=procs)
+    unstable = 0
+    if repeat:  # determinism self-check: the same script must give the same trace again
+        again = worker_env.run_many(jobs, seed=seed, procs=procs)
+        unstable = sum(1 for a, b in zip(traces, again) if a != b)
     errors = [(jobs[i][0]["fam"], jobs[i][1], tr["harness_error"]) for i, tr in enumerate(traces)
               if isinstance(tr, dict)]
     good = [(job, tr) for job, tr in zip(jobs, traces) if not isinstance(tr, dict)]
@@ -376,7 +381,7 @@ def run_check(prop: str, tier: str = "quick", seed: int = 0, workers: Tuple[str,
             ent = sigs.setdefault(key, {"count": 0, "sample": job[0]["fam"], "script": job[0]})
             ent["count"] += 1
     return {"prop": prop, "tier": tier, "scripts": len(scripts), "executions": len(jobs),
-            "events": sum(len(tr) for _, tr in good), "harness_errors": errors,
+            "events": sum(len(tr) for _, tr in good), "harness_errors": errors, "unstable_traces": unstable,
             "gen_s": round(t1 - t0, 2), "exec_s": round(t2 - t1, 2), "tlc_s": round(t3 - t2, 2),
             "signatures": sigs}
 
